@@ -19,14 +19,18 @@ META = {
                   "kind never loses a wake-up; several writers are re-notified by update(); for Read, Write and "
                   "Accept alike every deadline value stored while the call is parked (none->set, later, earlier, "
                   "set->zero->set, past, cleared) is followed and fires when it expires, and a timeout is returned only "
-                  "when the deadline stored at that moment has passed.  The defects found while proving (multi-reader "
-                  "lost wake-up F4, Accept deadline F10, set->zero->set F11, none->set F12, stale timers with several "
-                  "callers) are repaired in /repo; what remains recorded: with several blocked callers an EARLIER "
-                  "deadline reaches only the caller that gets the single wake-up token (the others time out late).",
+                  "when the deadline stored at that moment has passed - for one caller and, since the setters BROADCAST a "
+                  "deadline change (type deadlineSignal: watch / <-changed / broadcast), for several callers blocked in the "
+                  "same call: c13_deadline_change_seen_multi (ANY number of callers, thread-modular, and the product of 2) and "
+                  "c13_deadline_change_seen_products (products of 2 with their wake-up event and of 3): every caller follows the "
+                  "new deadline, none early, none parked past it.  The defects found while proving (multi-reader lost wake-up F4, Accept deadline F10, "
+                  "set->zero->set F11, none->set F12, stale timers with several callers, an earlier deadline reaching only "
+                  "the caller that got the single wake-up token) are repaired in /repo; nothing remains recorded for C13.",
     "level_note": "Partial for the runtime: the Go scheduler, the runtime's timers and select fairness, and wake-up latency "
                   "are assumed, not exhibited.  Atomicity assumption: between two yield points (function entry, label, "
-                  "s.mu.Lock(), select without default) a call touches only its own locals, one critical section of s.mu, "
-                  "or closed-channel flags.  The translator (go/ast, dictionary of leaf texts, fails closed) is trusted to "
+                  "s.mu.Lock(), changed := X.watch(), select without default) a call touches only its own locals, one "
+                  "critical section of s.mu, one load of the stored deadline, or closed-channel flags; a deadline setter "
+                  "(Store then broadcast, order checked on its skeleton) is one step.  The translator (go/ast, dictionary of leaf texts, fails closed) is trusted to "
                   "report the skeletons faithfully; the scenario harness ties the model's predictions to the real code.",
 }
 
@@ -35,13 +39,17 @@ OBLIGATIONS = [
     "c13_explore_sound",
     "c13_no_early_timeout", "c13_no_early_timeout_cleared", "c13_no_early_timeout_strong",
     "c13_deadline_change_seen", "c13_deadline_rearm",
+    "c13_deadline_change_seen_multi", "c13_setters_store_then_broadcast", "c13_single_token_refuted",
     "c13_close_wakes_all", "c13_error_wakes_all", "c13_after_close",
     "c13_single_waiter_no_lost_wakeup", "c13_single_waiter_set_deadline",
     "c13_multi_writer", "c13_multi_accepter", "c13_multi_reader",
     "c13_repairs_checked", "c13_repairs_strong_checked",
 ]
+# the literal products (two callers with their wake-up event, three callers): statement file C13n.v, compiled on every
+# run; not part of C13.v so that the thorough tier's coqchk of C13.v stays within its budget
+PRODUCTS = ["c13_deadline_change_seen_products"]
 PARTIAL = []
-REFUTED = []
+REFUTED = ["c13_single_token_refuted"]   # a witness about the replaced one-token design (Fixed.v), not about the source
 
 GEN = os.path.join(V.VERIF, "coq", "wait", "GenWait.v")
 
@@ -52,6 +60,7 @@ SCEN = {
     "deadline-past-before-call": "ScDlPastBefore", "deadline-none-then-set": "ScNoneThenSet",
     "deadline-set-later": "ScSetLater", "deadline-set-earlier": "ScSetEarlier",
     "deadline-set-zero-set": "ScSetZeroSet", "deadline-set-past": "ScSetPast", "deadline-cleared": "ScCleared",
+    "deadline-SetDeadline-other-direction-a": "(ScSetDOther false)", "deadline-SetDeadline-other-direction-b": "(ScSetDOther true)",
 }
 CALLER = {"Read": "Reader", "Write": "Writer", "Accept": "Accepter"}
 CODE = {"blocked": 0, "data": 1, "written": 2, "accepted": 3, "timeout": 4, "timeout-early": 5, "closed": 6, "sockerr": 7,
@@ -65,6 +74,27 @@ def translate(ctx):
         ctx.broke("translator: the wait-loop skeletons of sess.go could not be regenerated "
                   "(an unknown leaf or statement shape: the correspondence no longer checks)", o)
     return ok
+
+
+def prove_products(ctx):
+    """Compile coq/wait/C13n.v (the engine is built by ctx.prove) and add its theorems to the evidence."""
+    okp, thms, o = V.coq_props("wait", "C13n.v")
+    if not okp:
+        ctx.broke("statement file wait/C13n.v no longer compiles", V.tail_err(o))
+    missing = [t for t in PRODUCTS if t not in thms]
+    if okp and missing:
+        ctx.broke("obligations missing from C13n.v: %s" % ", ".join(missing))
+    open_ = [t for t in PRODUCTS if t in thms and not thms[t].startswith("Closed under the global context")]
+    if open_:
+        ctx.broke("C13n.v: not closed under the global context: %s" % ", ".join(open_), "\n".join(thms[t] for t in open_))
+    cov = ctx.coverage
+    cov["obligations"] = cov.get("obligations", 0) + len(PRODUCTS)
+    cov["discharged"] = cov.get("discharged", 0) + len([t for t in PRODUCTS if t in thms])
+    cov.setdefault("theorems", {}).update({t: "proved" if t in thms else "NOT CHECKED" for t in PRODUCTS})
+    cov.setdefault("trusted_base", []).extend(
+        "Print Assumptions %s (C13n.v, coqc only): %s" % (t, " ".join(thms[t].split())) for t in PRODUCTS if t in thms)
+    cov["axioms"] = sorted(set(cov.get("axioms", [])) | {a for t in thms.values() for a in t.split("\n")[1:] if t.startswith("Axioms")})
+    cov["checker_cmd"] = cov.get("checker_cmd", "") + " && coqc coq/wait/C13n.v"
 
 
 def compare_outcomes(ctx, rep):
@@ -123,6 +153,7 @@ def compare_outcomes(ctx, rep):
 def run(ctx):
     translate(ctx)
     ctx.prove("wait", "C13.v", OBLIGATIONS, partial=PARTIAL, refuted=REFUTED)
+    prove_products(ctx)
     env = {}
     if ctx.replay:
         try:
@@ -150,18 +181,27 @@ def run(ctx):
         "buffer sizes x one datagram with 1-3 messages incl. messages longer than a buffer, so that each success path of Read is "
         "in turn the last to pass the token on), open window, new "
         "peers, SetReadDeadline/SetWriteDeadline/SetDeadline/Listener.SetReadDeadline sequences before-call, past, none->set, "
-        "set->later, set->earlier, set->zero->set, set->past, cleared, Close, socket error (in-memory conn's ReadFrom/WriteTo "
+        "set->later, set->earlier, set->zero->set, set->past, cleared (each also with 2 callers parked, 3 in the thorough tier: "
+        "every caller must follow the change), SetDeadline while blocked with the other direction's deadline set on its own, "
+        "Close, socket error (in-memory conn's ReadFrom/WriteTo "
         "failing), after-Close} x {Read, Write, Accept} x 1..3 callers, real time, >= %s ms between causally ordered events, "
         "'did not return' concluded after %s ms; non-trivial = every caller was observed parked before the waking event"
         % (ex.get("separation_ms"), ex.get("margin_ms")))
     ctx.assumptions += [
         "the Go runtime's timers (a timer armed for d fires at some time >= d, never before) and channel/select semantics are "
         "assumed as specified; select fairness and goroutine scheduling are assumed, exact wake-up latency is not exhibited",
-        "atomic steps of the model: function entry, label, s.mu.Lock(), select without default are the yield points; a critical "
-        "section of s.mu and a notify procedure run atomically",
+        "atomic steps of the model: function entry, label, s.mu.Lock(), changed := X.watch(), select without default are the yield "
+        "points; a critical section of s.mu, a notify procedure and a deadline setter (Store, then broadcast) run atomically",
+        "deadlineSignal (watch / broadcast) is a primitive of the model: per call one bit 'the generation it watched is no longer "
+        "current'; the translator compares the bodies of watch and broadcast with the text the primitive was modelled from",
         "abstractions: stored deadline = none/future/past; core = (readable messages 0..3+, bufptr non-empty, window room); "
         "accept backlog 0..3+; products of 2 and 3 identical callers are explicit, more callers are covered thread-modularly "
-        "for the per-call safety statements only",
+        "for the per-call safety statements and, since deadline changes are broadcast, for the deadline-change statement; the "
+        "3-caller deadline-change product has setters, clock and timers but not the callers' own wake-up event (with it the product "
+        "exceeds the explorer's 300 000-state budget; a 2-caller product and the thread-modular system have it); the products of "
+        "C13n.v are checked by coqc on every run but are not in the cone of C13.v that coqchk re-checks in the thorough tier",
+        "systems without a deadline setter (sys_n) leave out the yield point after watch() and check that no caller ever finds its "
+        "generation moved",
         "Listener.packetInput's `l.chAccepts <- s` and the clock are environment transitions written in Model.v, not generated",
         "boundary B11 (deadline extended in the same instant the old timer fires) is refuted in the model "
         "(c13_no_early_timeout_strong_refuted) and not forced on the real code",
